@@ -21,9 +21,9 @@ pub fn check() -> Check {
 
 fn plan(tier: Tier) -> Vec<Workload> {
     vec![
-        Workload::new("events", tier.pick(20_000, 500_000)),
+        Workload::new("events", tier.pick(60_000, 1_500_000)),
         // the real main.ts executed under node against the real adapter (batches of scenarios per node process)
-        Workload::new("page_js", tier.pick(48, 960)),
+        Workload::new("page_js", tier.pick(96, 2_400)),
     ]
 }
 
